@@ -1,1 +1,28 @@
-From Morph Require Import Base.UStr.
+(* C06 — a NULL suppresses exactly the statements that use it and never becomes a term.  Statements only, over
+   materializer._preprocess_data as modelled in Model/Data.v (what each reader hands over for a NULL is modelled per source
+   kind in Data.arrive and measured by the correspondence). *)
+From Morph Require Import Base.UStr Model.Data Proofs.DataP.
+
+(* a row reaches term construction iff none of the columns the rule references holds a NULL (None / NaN as delivered by the
+   reader) or a token of na_values -- for every frame, reference set and na_values list; rows are otherwise untouched *)
+Theorem null_suppresses_exactly : forall na refs f r,
+  In r (preprocess na refs f) <->
+  exists raw, In raw f /\ raw_has_null refs raw = false /\ row_has_null na refs (str_row raw) = false /\ r = null_to_text na (str_row raw).
+Proof. exact preprocess_in. Qed.
+Print Assumptions null_suppresses_exactly.
+Theorem null_in_referenced_column : forall refs raw,
+  raw_has_null refs raw = true <-> exists k, In k refs /\ (assoc k raw = Some CNone \/ assoc k raw = Some CNaN).
+Proof. exact raw_has_null_iff. Qed.
+Print Assumptions null_in_referenced_column.
+Theorem na_token_in_referenced_column : forall na refs r,
+  row_has_null na refs r = true <-> exists k v, In k refs /\ rget k r = Some v /\ In v na.
+Proof. exact row_has_null_iff. Qed.
+Print Assumptions na_token_in_referenced_column.
+(* a NULL never reaches a term: a surviving row holds, in every referenced column, the text of a non-null cell *)
+Theorem null_never_becomes_text : forall na refs f r, In r (preprocess na refs f) ->
+  exists raw, In raw f /\ forall k, In k refs -> assoc k raw <> Some CNone /\ assoc k raw <> Some CNaN.
+Proof.
+  intros na refs f r H. apply preprocess_in in H as (raw & Hraw & Q & _ & _). exists raw. split; auto.
+  intros k Hk. split; intro E; assert (raw_has_null refs raw = true) by (apply raw_has_null_iff; exists k; auto); congruence.
+Qed.
+Print Assumptions null_never_becomes_text.
